@@ -39,6 +39,14 @@ def cases(draw, tier):
     if draw(st.integers(1, 400 if tier == "quick" else 120)) == 1:
         return {"mode": "large", "n": draw(st.integers(1024, 1100)), "psd": draw(st.booleans()), "seed": draw(st.integers(0, 10**6)),
                 "alg": draw(st.sampled_from(["omitted", "Auto", "Auto(kw)"])), "ncol": draw(st.sampled_from([0, 2])), "bscale": draw(st.sampled_from([0, 3, -3]))}
+    if draw(st.integers(1, 12)) == 1:
+        # medium-size dense systems (30..60 rows): the iterative algorithms do not exhaust the Krylov space before they
+        # stop, so the requested tolerance is what decides
+        return {"mode": "mid", "n": draw(st.integers(30, 60)), "seed": draw(st.integers(0, 10**6)), "cplx": draw(st.booleans()),
+                "kappa": draw(st.sampled_from([2.0, 5.0, 20.0])), "ascale": draw(st.sampled_from([0, 0, 3, -3])),
+                "alg": draw(st.sampled_from(["CG", "CG", "CG+P", "CG+P", "GMRES", "Auto", "Cholesky", "LU"])),
+                "tol_exp": draw(st.sampled_from([-10, -8, -6, -4])), "ncol": draw(st.sampled_from([0, 3])),
+                "bscale": draw(st.sampled_from([0, 0, 4, -4])), "psd": draw(st.booleans())}
     g = gen.TraitGen(draw, avoid=AVOID | {"fft", "hh"})
     n = g.integer(1, 8)
     depth = g.pick([0, 1, 1, 2, 2, 3])
@@ -48,18 +56,22 @@ def cases(draw, tier):
     dts = gen.ALLDT
     return {"mode": "tree", "tree": tree, "alg": alg, "trait": trait, "tol_exp": g.pick([-10, -8, -6]), "extra_iters": g.integer(0, 5),
             "b": g.operand(n, dtypes=dts), "bl": g.left_operand(n, dtypes=dts), "declare": g.boolean(),
-            "bscale": g.pick([0, 0, 0, -6, -3, 2, 4, 6]), "b2scale": g.pick([0, -6, -3, 3])}
+            "bscale": g.pick([0, 0, 0, -6, -3, 2, 4, 6]), "b2scale": g.pick([0, -6, -3, 3]),
+            # iterative algorithms: the operator rescaled by 10^ascale (tolerances are relative), CG optionally with a
+            # Jacobi preconditioner passed through the algorithm object
+            "ascale": g.pick([0, 0, 3, -3]) if alg in ("CG", "GMRES") else 0, "precond": alg == "CG" and g.boolean()}
 
 
 def strategy(tier):
     return cases(tier)
 
 
-def make_alg(name, n, tol, extra):
+def make_alg(name, n, tol, extra, P=None):
     import cola
     L = cola.linalg
+    kw = {} if P is None else {"P": P}
     return {"omitted": None, "Auto": L.Auto(), "LU": L.LU(), "Cholesky": L.Cholesky(),
-            "CG": L.CG(tol=tol, max_iters=20 * n + 20 + extra), "GMRES": L.GMRES(tol=tol, max_iters=n + extra)}[name]
+            "CG": L.CG(tol=tol, max_iters=20 * n + 20 + extra, **kw), "GMRES": L.GMRES(tol=tol, max_iters=n + extra)}[name]
 
 
 def large_case(case, out):
@@ -96,13 +108,61 @@ def large_case(case, out):
             out.fail(name, site, "residual", f"relative residual {np.max(res):.3e} > {50 * tol:.1e}")
 
 
+def mid_case(case, out):
+    import cola
+    L = cola.linalg
+    n, seed, cplx = case["n"], case["seed"], case["cplx"]
+    rng = np.random.default_rng(seed)
+    lam = np.linspace(1.0, case["kappa"], n) * 10.0 ** case["ascale"]
+    alg_name = case["alg"]
+    psd = case["psd"] or alg_name in ("CG", "CG+P", "Cholesky")
+    if not psd:
+        lam = lam * np.where(rng.random(n) < 0.3, -1, 1)
+    Q = KR.rand_unitary(n, seed, cplx)
+    M = (Q * lam) @ Q.conj().T
+    M = (M + M.conj().T) / 2
+    A = cola.ops.Dense(M)
+    if psd:
+        A = cola.PSD(A)
+    tol = 10.0 ** case["tol_exp"]
+    P = cola.ops.Diagonal((1.0 / np.real(np.diag(M))).astype(M.dtype)) if alg_name == "CG+P" else None
+    alg = {"CG": lambda: L.CG(tol=tol, max_iters=10 * n), "CG+P": lambda: L.CG(tol=tol, max_iters=10 * n, P=P),
+           "GMRES": lambda: L.GMRES(tol=tol, max_iters=n + 2), "Auto": lambda: L.Auto(), "Cholesky": lambda: L.Cholesky(),
+           "LU": lambda: L.LU()}[alg_name]()
+    shape = (n, ) if case["ncol"] == 0 else (n, case["ncol"])
+    b = (rng.standard_normal(shape) + (1j * rng.standard_normal(shape) if cplx else 0)) * 10.0 ** case["bscale"]
+    out.label("mode:mid", "alg:" + alg_name, "psd:" + str(psd), "complex" if cplx else "real", "ascale:%d" % case["ascale"])
+    out.nontrivial = True
+    site = f"mid:{'psd' if psd else 'indefinite'}:{alg_name}"
+    iterative = alg_name in ("CG", "CG+P", "GMRES")
+    eps = np.finfo(np.float64).eps
+    for name, fn in (("inv", lambda: L.inv(A, alg) @ b), ("solve", lambda: L.solve(A, b, alg))):
+        try:
+            x = np.asarray(fn())
+        except Exception as e:
+            out.fail(name, site, oracle.exc_man(e), e)
+            continue
+        X, B = x.reshape(n, -1), b.reshape(n, -1)
+        r = np.linalg.norm(M @ X - B, axis=0)
+        bound = 1e3 * n * eps * (np.linalg.norm(M, 2) * np.linalg.norm(X, axis=0) + np.linalg.norm(B, axis=0))
+        if iterative:  # CG stops at tol (1 + |r0|/|b|) |b| = 2 tol |b| from x0 = 0; GMRES at its Arnoldi tolerance times cond
+            bound = bound + (10 * tol if alg_name != "GMRES" else 20 * tol * case["kappa"]) * np.linalg.norm(B, axis=0)
+        if x.shape != b.shape or not np.all(np.isfinite(x)) or np.any(r > bound):
+            j = int(np.argmax(r / bound)) if x.shape == b.shape and np.all(np.isfinite(r)) else 0
+            out.fail(name, site, "residual", f"|A x - b| / |b| = {r[j] / np.linalg.norm(B[:, j]):.3e} for tol {tol:g} (n={n}, kappa={case['kappa']})")
+
+
 def check(case, out):
     import cola
     from cola.ops import LinearOperator
     L = cola.linalg
     if case["mode"] == "large":
         return large_case(case, out)
+    if case["mode"] == "mid":
+        return mid_case(case, out)
     tree = case["tree"]
+    if case.get("ascale"):
+        tree = {"k": "scale", "c": {"t": "float", "v": 10.0 ** case["ascale"]}, "side": "l", "ch": [tree]}
     R = IR.denote(tree)
     n = R.shape[0]
     out.label(*TP.tree_labels(tree, R))
@@ -116,7 +176,18 @@ def check(case, out):
         A = cola.PSD(A)
     kind = type(A).__name__.split("[")[0]
     tol = 10.0 ** case["tol_exp"]
-    alg = make_alg(case["alg"], n, tol, case["extra_iters"])
+    P = None
+    # (a preconditioner is sized for the whole operator: it is only handed to operators without a structural inverse
+    # rule, which would pass the algorithm object - and with it P - on to factors of other sizes)
+    core = A
+    if kind == "Product" and len(A.Ms) == 2 and type(A.Ms[0]).__name__ == "ScalarMul":
+        core = A.Ms[1]  # a scalar multiple: the rule inverts the scalar and hands the algorithm to the other factor (same size)
+    if case.get("precond") and type(core).__name__.split("[")[0] in ("Dense", "Sum", "LinearOperator", "Tridiagonal", "Sparse"):
+        d = np.real(np.diag(R.M)).astype(np.float64)
+        if np.all(d > 0):
+            P = cola.ops.Diagonal((1.0 / d).astype(R.dtype))
+            out.label("precond:jacobi")
+    alg = make_alg(case["alg"], n, tol, case["extra_iters"], P)
     iterative = case["alg"] in ("CG", "GMRES")
     b, bl = IR.dec(case["b"]), IR.dec(case["bl"])
     if case.get("bscale"):
